@@ -6,6 +6,8 @@ print("| seeded change | property | what it needs to manifest | first result | n
 print("|---|---|---|---|---|")
 for e in rows:
     missed = e["first_result"].startswith("MISSED")
-    first = "**missed**" if missed else "detected"
+    first = "**missed**" if missed else ("**no verdict (exit 2)**" if e["first_result"].startswith("MACHINERY") else "detected")
     now = "detected" + (" (after: %s)" % e["strengthened"] if e.get("strengthened") else "")
+    if e.get("still_missed"):
+        now = "**not detected**: " + e["still_missed"]
     print("| %s: %s | %s | %s | %s | %s |" % (e["id"], e["change"].replace("|", "\\|"), e["property"], e["needs"].replace("|", "\\|"), first, now))
